@@ -20,7 +20,8 @@ var (
 	optTermDiv    bool // term_div.go: (x*A) div/rem B and product comparisons (C28-C30)
 	optState1Time bool // natives_state1_time.go: (time.Time).Add/Sub/UnixNano in the sec/nsec domain (C31, C48)
 	optTrust2Time bool // natives_trust2.go: division-free (time.Time).Sub (C34-C36, C38)
-	optPathsTime  bool // natives_paths.go: branch-free (time.Time).After/Before/Equal (C28-C30)
+	optPathsTime  bool // natives_paths.go: branch-free (time.Time).After/Before/Equal (C28-C30, walk checks)
+	optPathsTime2 bool // natives_paths2.go Add/Unix/Nanosecond intrinsics and the smt.go timeout/fall-back order (C28-C30 only)
 )
 
 // defaultTermOpts: the feature sets each property's check was built with.
@@ -29,7 +30,7 @@ func defaultTermOpts(property string) []string {
 	case "C22", "C23":
 		return []string{"affine"}
 	case "C28", "C29", "C30":
-		return []string{"termdiv", "pathstime"}
+		return []string{"termdiv", "pathstime", "pathstime2"}
 	case "C31", "C48":
 		return []string{"state1time"}
 	case "C34", "C35", "C36", "C38":
@@ -40,7 +41,7 @@ func defaultTermOpts(property string) []string {
 
 func setTermOpts(opts []string) {
 	optLinSum, optBoundLemmas, optSumAbs = false, false, false
-	optAffine, optTermDiv, optState1Time, optTrust2Time, optPathsTime = false, false, false, false, false
+	optAffine, optTermDiv, optState1Time, optTrust2Time, optPathsTime, optPathsTime2 = false, false, false, false, false, false
 	optQuotVar, optZ3New = false, false // natives_epic.go
 	for _, o := range opts {
 		switch o {
@@ -54,6 +55,8 @@ func setTermOpts(opts []string) {
 			optTrust2Time = true
 		case "pathstime":
 			optPathsTime = true
+		case "pathstime2":
+			optPathsTime2 = true
 		case "linsum":
 			optLinSum = true
 		case "boundlemmas":
